@@ -551,6 +551,126 @@ def h_file(params, model=None):
     return fn
 
 
+def h_conc(params, model=None):
+    """two callers share one SqliteStorage: caller B's complete call runs at a solver-chosen release of the storage mutex inside caller
+    A's call (the only points where another thread can get in, since every access to the shared connection happens under that mutex).
+    Linearizability oracle: both results and the final table must equal those of A;B or of B;A run one after the other."""
+    def fn():
+        quiet_repo()
+        import os
+        import tempfile
+        from cloudsync.sync.sqlite_storage import SqliteStorage
+        if model is None:
+            from symx.core import sym_int
+            choose = lambda name, n: int(sym_int(name, 0, n - 1))
+        else:
+            it = iter(model)
+
+            def choose(name, n):
+                nm, k, v = next(it)
+                assert nm.split("#")[0] == name
+                return int(v)
+        d = tempfile.mkdtemp(prefix="verif-c09c-")
+        path = os.path.join(d, "s.db")
+
+        def pick(who):
+            op = ["create", "update", "delete", "read"][choose("op" + who, 4)]
+            tag = TAGS[choose("tag" + who, 2)]
+            eid = [1, 2, 3][choose("id" + who, 3)]
+            return (op, tag, eid, ("blob-" + who).encode())
+
+        def apply_model(spec, call, nxt):
+            op, tag, eid, blob = call
+            if op == "create":
+                new = max([i for (_t, i) in spec] + [0]) + 1          # INTEGER PRIMARY KEY without AUTOINCREMENT: largest id in use + 1
+                spec[(tag, new)] = blob
+                return ("id", new)
+            if op == "update":
+                if (tag, eid) in spec:
+                    spec[(tag, eid)] = blob
+                    return ("ok",)
+                return ("ValueError",)
+            if op == "delete":
+                spec.pop((tag, eid), None)
+                return ("ok",)
+            return ("read", spec.get((tag, eid)))
+
+        def run(st, call):
+            op, tag, eid, blob = call
+            try:
+                if op == "create":
+                    return ("id", st.create(tag, blob))
+                if op == "update":
+                    st.update(tag, blob, eid)
+                    return ("ok",)
+                if op == "delete":
+                    st.delete(tag, eid)
+                    return ("ok",)
+                return ("read", st.read(tag, eid))
+            except ValueError:
+                return ("ValueError",)
+        st = SqliteStorage(path)
+        try:
+            st.create(TAGS[0], b"pre-1")
+            st.create(TAGS[1], b"pre-2")
+            a, b = pick("A"), pick("B")
+            at = 1 + choose("release", params.get("maxrel", 3))
+            box = {}
+            real = st._mutex
+
+            class Gate:
+                """the storage mutex; at the chosen release inside A's call the other caller gets in and completes its call"""
+                def __init__(self):
+                    self.n = 0
+                    self.inside = False
+
+                def __enter__(self):
+                    return real.__enter__()
+
+                def __exit__(self, *x):
+                    r = real.__exit__(*x)
+                    if not self.inside:
+                        self.n += 1
+                        if self.n == at:
+                            self.inside = True
+                            box["b"] = run(st, b)
+                            self.inside = False
+                    return r
+
+                def acquire(self, *a_, **k_):
+                    return real.acquire(*a_, **k_)
+
+                def release(self):
+                    return self.__exit__(None, None, None)
+            st._mutex = Gate()
+            ra = run(st, a)
+            st._mutex = real
+            if "b" not in box:
+                return {"ok": True, "key": None, "nontrivial": False}      # A's call has fewer critical sections than the chosen index
+            rb = box["b"]
+            got = {(t, i): bl for t, dd in st.read_all().items() for i, bl in dd.items()}
+            outcomes = []
+            for order in ("AB", "BA"):
+                spec = {(TAGS[0], 1): b"pre-1", (TAGS[1], 2): b"pre-2"}
+                nxt = [3]
+                res = {}
+                for who in order:
+                    res[who] = apply_model(spec, a if who == "A" else b, nxt)
+                outcomes.append((res["A"], res["B"], spec))
+            if not any(ra == oa and rb == ob and got == sp for oa, ob, sp in outcomes):
+                return {"ok": False, "info": {"why": "two interleaved callers: results and final table match neither order of the two calls (a write was lost or an id handed out twice)",
+                                              "op": "concurrent", "calls": [a[:3], b[:3], "B ran at release %d of A" % at], "resultA": repr(ra), "resultB": repr(rb), "table": repr(sorted(got.items()))}}
+        finally:
+            try:
+                st.close()
+            except Exception:
+                pass
+            import shutil
+            shutil.rmtree(d, ignore_errors=True)
+        return {"ok": True, "key": repr((a[:3], b[:3], at)), "nontrivial": True}
+    return fn
+
+
 def _mut_sql(params, model=None):
     """sensitivity twin: UPDATE loses its tag condition"""
     inner = h_sqlite(params, model)
@@ -573,7 +693,7 @@ def _mut_sql(params, model=None):
     return fn
 
 
-HARNESSES = {"sqlite": h_sqlite, "mock": h_mock, "file": h_file, "sqlite~update-no-tag": _mut_sql}
+HARNESSES = {"sqlite": h_sqlite, "mock": h_mock, "file": h_file, "conc": h_conc, "sqlite~update-no-tag": _mut_sql}
 
 
 def _classify(why, op):
@@ -624,6 +744,7 @@ def jobs(tier):
         {"harness": "sqlite", "params": {"K": 2, "rows": 2 if q else 3}, "label": "sqlite/2-calls/%d-rows" % (2 if q else 3)},
         {"harness": "mock", "params": {"K": 3 if q else 4, "reopen": True}, "label": "mockstorage/%d-calls+reopen" % (3 if q else 4)},
         {"harness": "file", "params": {"K": 3 if q else 4}, "label": "sqlite-file/%d-calls+fault+reopen" % (3 if q else 4)},
+        {"harness": "conc", "params": {"maxrel": 3}, "label": "sqlite-file/two-callers-interleaved-at-mutex-releases"},
         {"harness": "sqlite~update-no-tag", "params": {"K": 1, "rows": 2}, "label": "sqlite~update-no-tag", "role": "sens"},
     ]
 
@@ -637,7 +758,7 @@ def meta(tier):
                        "the real SQLite (in-memory) and compared (translation validation). MockStorage: real class, solver-chosen 3-4 call sequences incl. re-open.",
         "bounds": {"table": "<= 3 rows, ids 1..5 (new ids 1..7), 2 tags", "calls": "1 from arbitrary state; 2-call sequences (thorough: 3 rows)", "mockstorage": "3 (4) calls, ids 0..2, 2 tags, reopen"},
         "symbolic": ["row presence, ids, tags, blobs of the pre-state", "operation, tag, id, blob of each call"],
-        "outside": ["crash durability (power loss) and WAL internals of the on-disk file (C library, file I/O); close/reopen visibility IS checked, concretely, by the sqlite-file harness", "concurrent callers (threads)", "blob values themselves (opaque tokens: only equality matters)"],
+        "outside": ["crash durability (power loss) and WAL internals of the on-disk file (C library, file I/O); close/reopen visibility IS checked, concretely, by the sqlite-file harness", "concurrent callers as real threads (the two-caller harness interleaves at the storage mutex's release points, which is where another thread can get in as long as every access to the shared connection is made under that mutex - an assumption, read off the code)", "blob values themselves (opaque tokens: only equality matters)"],
         "stubs": ["sqlite3 connection replaced by the symbolic relation + SQL interpreter (INSERT, UPDATE..SET, DELETE, SELECT cols, WHERE with = != <> AND OR, CREATE, PRAGMA); "
                   "validated per path against real SQLite"],
         "assumptions": ["SQLite assigns an unused rowid on INSERT", "z3 is sound"],
